@@ -55,6 +55,9 @@ def run(tier, seed):
     for i in range(8 if quick else 50):
         sd = rng.randrange(1 << 30)
         items.append(('brk:%d' % sd, genprog.gen_break_program(sd)[1], []))
+    for i in range(6 if quick else 40):
+        sd = rng.randrange(1 << 30)
+        items.append(('range:%d' % sd, genprog.gen_range_program(sd)[1], []))
     # corpus files that carry their own "// args:" keep them; every program is crossed with the option sets
     optsets = OPTSETS_QUICK if quick else OPTSETS_THOROUGH
     if quick:
@@ -154,6 +157,36 @@ def c_stage(chk, progs, rng, nctx=2, label='program'):
         for e in swst['errors']:
             chk.machinery_error('TLC(StepTrace): ' + str(e)[:1500])
         out.update(states=swst['states'], transitions=swst['transitions'], sweeps=nsweeps)
+        # multi-byte chunks: single-step sweeps re-enter the dispatcher for every byte and cannot see a wrong jump *inside* a
+        # chunk, so the specification-guided inputs (Cover.tla) are also fed as one chunk and validated call by call
+        import mc
+        okb = [p for p in built if p.ok and p.bin]
+        cov, cst = mc.cover_inputs(okb, k=6, rng=random.Random(rng.randrange(1 << 30)))
+        for e in cst['errors']:
+            chk.machinery_error('TLC(Cover): ' + str(e)[:1500])
+        recs = ctrace.record_all(okb, {p.src: cov.get(p.pid, []) for p in okb}, rng, 'whole', 1)
+        good = [r for r in recs if r['rec']['status'] == 'ok']
+        for r in recs:
+            if r['rec']['status'] != 'ok':
+                chk.violation('driver %s while feeding %r as one chunk to the %s %s %s' % (r['rec']['status'], r['data'], label, r['prog'].name, r['prog'].args),
+                              ctrace.witness_of(r))
+        cases, skipped = ctrace.to_cases(good)
+        verd, vst = runner.validate_traces(cases, shards=8, workers=2)
+        for e in vst['errors']:
+            chk.machinery_error('TLC(ApiTrace): ' + str(e)[:1500])
+        nacc = 0
+        for c in cases:
+            v, rep = verd[c['key']]
+            if v == 'ACCEPT':
+                nacc += 1
+            elif v == 'REJECT':
+                chk.violation('emitted C of the %s differs from the compiled machine when %r is fed as one chunk: clauses %s at event %s of %s %s'
+                              % (label, c['rec']['data'], json.dumps(rep.get('clauses')), rep.get('ei'), c['rec']['prog'].name, c['rec']['prog'].args),
+                              ctrace.witness_of(c['rec'], rep))
+        out['states'] += cst['states'] + vst['states']
+        out['transitions'] += cst['transitions'] + vst['transitions']
+        out['accepted'] += nacc
+        out['whole_chunk_traces'] = nacc
     finally:
         shutil.rmtree(root, ignore_errors=True)
     return out
